@@ -232,7 +232,7 @@ func TestC13Parse(t *testing.T) { Check(t, c13Parse) }
 var c13Enum = Register(Prop[markupLine]{ID: "C13", Name: "enumerated", Run: runC13, Render: renderC13})
 
 func TestC13Enumerated(t *testing.T) {
-	Enumerate(t, c13Enum, true, "ordinal and plural for every value 0..130; every decimal d.f with f in {0,00,05,5,50,001,125,999} and d in {0,1,9,10}; every character name x 1-3 blanks; every text-bit pair around one marker pair",
+	Enumerate(t, c13Enum, true, "ordinal and plural for every value 0..130; every decimal d.f with f in {0,00,05,5,50,001,125,999} and d in {0,1,9,10}; every character name x 1-3 blanks; every marker kind after 0-3 characters of text and before text with and without leading blanks; every text-bit pair around one marker pair",
 		func(yield func(markupLine) bool) {
 			text := func(s string) mseg { return mseg{K: "text", S: s} }
 			for n := 0; n <= 130; n++ {
@@ -257,6 +257,34 @@ func TestC13Enumerated(t *testing.T) {
 					for _, inner := range []string{"hi", "é", " x "} {
 						l := markupLine{Prefix: name, PreWS: ws, Segs: []mseg{text("w"), mseg{K: "open", Name: "a"}, text(inner), mseg{K: "close", Name: "a"}}}
 						if !yield(l) {
+							return
+						}
+					}
+				}
+			}
+			// every marker kind after 0-3 characters of text (the start of the line is special, one character after it is not)
+			for _, before := range []string{"", "x", "é", " ", "xy", "x ", " x", "日本", "xyz", "xy ", "  "} {
+				for _, after := range []string{" y", "y", "  y", " ", "", "\ty"} {
+					for _, seg := range []mseg{
+						{K: "self", Name: "a"},
+						{K: "self", Name: "a", Props: []mprop{{"trimwhitespace", "bool", "false"}}},
+						{K: "self", Name: "a", Props: []mprop{{"trimwhitespace", "bool", "true"}}},
+						{K: "open", Name: "a"},
+						{K: "open", Name: "a", Props: []mprop{{"trimwhitespace", "bool", "true"}}},
+						{K: "select", Name: "select", Props: []mprop{{"value", "word", "m"}, {"m", "quoted", "he"}}},
+					} {
+						var segs []mseg
+						if before != "" {
+							segs = append(segs, text(before))
+						}
+						segs = append(segs, seg)
+						if after != "" {
+							segs = append(segs, text(after))
+						}
+						if seg.K == "open" {
+							segs = append(segs, mseg{K: "close", Name: "a"})
+						}
+						if !yield(markupLine{Segs: segs}) {
 							return
 						}
 					}
